@@ -123,6 +123,7 @@ type c3Variant struct {
 	LatMs   int
 	Salt    uint64
 	Chunk   bool
+	ScanBuf int // override of the scanner's 128 KiB buffer constant (0: unchanged)
 }
 
 func (v *c3Variant) String() string {
@@ -134,7 +135,7 @@ func (v *c3Variant) String() string {
 		}
 		fs = append(fs, fmt.Sprintf("f%d%s:%d lines", i, z, len(f)))
 	}
-	return fmt.Sprintf("workers=%d batch=%d buffer=%d readers=%d stdin=%v files=%v order=%v latency=%d/1000<=%dms mapsalt=%x", v.Workers, v.Batch, v.Buffer, v.Readers, v.Stdin, fs, v.Order, v.LatPm, v.LatMs, v.Salt)
+	return fmt.Sprintf("workers=%d batch=%d buffer=%d readers=%d stdin=%v files=%v order=%v latency=%d/1000<=%dms mapsalt=%x scanbuf=%d", v.Workers, v.Batch, v.Buffer, v.Readers, v.Stdin, fs, v.Order, v.LatPm, v.LatMs, v.Salt, v.ScanBuf)
 }
 
 func c3GenScenario(t *simrt.Tape) *c3Scenario {
@@ -296,6 +297,9 @@ func c3GenVariant(t *simrt.Tape, sc *c3Scenario, first bool) *c3Variant {
 		v.LatMs = []int{20, 120, 300}[t.F(3)]
 	}
 	v.Chunk = t.FBool(1, 2)
+	if t.FBool(1, 2) {
+		v.ScanBuf = []int{1, 3, 8, 17, 64, 256}[t.F(6)]
+	}
 	v.Salt = uint64(t.F(1<<30))<<1 | 1
 	if first {
 		v.Salt = 0
@@ -548,7 +552,11 @@ func c3RunVariant(rc *RunCtx, sc *c3Scenario, v *c3Variant) *c3Out {
 	} else if rc.Tape.WBool(1, 2) {
 		args = append(args, "-")
 	}
-	s := rc.NewSim(simrt.Opts{MaxSteps: 600000, IdleLimit: time.Hour, MapSalt: v.Salt})
+	opts := simrt.Opts{MaxSteps: 600000, IdleLimit: time.Hour, MapSalt: v.Salt}
+	if v.ScanBuf > 0 {
+		opts.Knobs = map[string]int{"rare/pkg/extractor/batchers.ReadAheadBufferSize": v.ScanBuf}
+	}
+	s := rc.NewSim(opts)
 	plan := &simrt.ReadPlan{ErrAt: -1, Chunk: v.Chunk, LatPermille: v.LatPm, LatMaxMs: v.LatMs}
 	s.FS.Default = plan
 	if v.Stdin {
